@@ -5,10 +5,15 @@
 -/
 import RoModel.DriverCore
 import RoModel.Drivers.Op
+import RoModel.Drivers.Chain
+import RoModel.Drivers.Cancel
 namespace Ro.Driver
 
 def handlers : List (String × (Case → String)) := [
-  ("op", Drivers.Op.run)
+  ("op", Drivers.Op.run),
+  ("chain", Drivers.Chain.runChain),
+  ("reuse", Drivers.Chain.runReuse),
+  ("cancel", Drivers.Cancel.run)
 ]
 
 def runCase (c : Case) : String :=
